@@ -26,8 +26,8 @@ static void setup() { using namespace sc; if (!g_shapes.empty()) return;
     { Mesh m = subdivide_sphere(subdivide_sphere(octahedron(), ""), ""); add(m, "octasphere66_plane_through_vertices"); }
     add(subdivide_flat(subdivide_flat(cube12(), ""), ""), "cube_subdivided_194");
 }
-static const double AX[10][3] = {{1, 0, 0}, {-1, 0, 0}, {0, 1, 0}, {0, -1, 0}, {0, 0, 1}, {0, 0, -1}, {0.7071067811865476, 0.7071067811865476, 0}, {0.5773502691896258, 0.5773502691896258, 0.5773502691896258}, {0.2672612419124244, -0.5345224838248488, 0.8017837257372732}, {0, 0, 0}};   // last = the real longest axis
-static const char* AXN[10] = {"+x", "-x", "+y", "-y", "+z", "-z", "(1,1,0)", "(1,1,1)", "generic", "longest_axis"};
+static const double AX[16][3] = {{1, 0, 0}, {-1, 0, 0}, {0, 1, 0}, {0, -1, 0}, {0, 0, 1}, {0, 0, -1}, {0.7071067811865476, 0.7071067811865476, 0}, {0.5773502691896258, 0.5773502691896258, 0.5773502691896258}, {0.2672612419124244, -0.5345224838248488, 0.8017837257372732}, {0, 0, 0}, {0.000764842059810797, 0.0006442175798680818, 0.9999995000000417}, {-0.0005048460204588443, 0.0008632092227806532, -0.9999995000000417}, {-9.364566872906404e-07, -3.507832276895614e-07, 0.9999999999995001}, {1.865123694225447e-07, -9.82452612624169e-07, -0.9999999999995001}, {0.9999995000000417, 0.000764842059810797, 0.0006442175798680818}, {-5.048461045997734e-07, -0.9999999999995, 8.632093666487298e-07}};   // last = the real longest axis
+static const char* AXN[16] = {"+x", "-x", "+y", "-y", "+z", "-z", "(1,1,0)", "(1,1,1)", "generic", "longest_axis", "+z tilted by 0.001 rad", "-z tilted by 0.001 rad", "+z tilted by 1e-06 rad", "-z tilted by 1e-06 rad", "+x tilted by 0.001 rad", "-y tilted by 1e-06 rad"};   // index 9 = the real longest axis; 10..15 = almost axis-aligned
 static const char* LMN[4] = {"band_low", "band_middle", "band_high", "too_large"};
 
 struct Case { int shape, axis, lmin, seed; };
@@ -57,7 +57,7 @@ static std::string diagnose(cell_ptr c, double l_min, const local_mesh_refiner& 
 static std::string divide_once(const Case& cs) {
     setup(); simucell3d_verif::g_base_seed = 1000 + cs.seed; simucell3d_verif::reset_rng_counters(); srand(1);
     const sc::Mesh& m = g_shapes[cs.shape]; auto ty = sc::make_cell_type(0, 3); auto c = std::make_shared<forced_axis_cell>(m.pos, m.tri, 7u, ty); c->set_local_id(0); c->initialize_cell_properties();
-    if (cs.axis < 9) { c->forced_ = true; c->axis_ = vec3(AX[cs.axis][0], AX[cs.axis][1], AX[cs.axis][2]); }
+    if (cs.axis != 9) { c->forced_ = true; c->axis_ = vec3(AX[cs.axis][0], AX[cs.axis][1], AX[cs.axis][2]); }
     bool in_band = false; const double l_min = lmin_for(m, cs.lmin, in_band); local_mesh_refiner lmr(l_min, 3 * l_min, true);
     c->target_volume_ = 1.25 * c->get_volume();
     const auto before = soup(*c); const double Vm = (double)sc::geom_of(*c).vol; const double target_m = c->target_volume_; const vec3 centroid = c->compute_centroid(); const vec3 n = c->get_cell_division_axis();
@@ -109,7 +109,8 @@ static std::string run_population(int ready_mask, int seed, int* divided = nullp
 
 static void explore(Result& R) {
     const bool th = R.args.thorough(); setup(); const int K = th ? 12 : 3; long cases = 0, ok = 0, fail = 0; double worst = 0; long unit = 0;
-    for (int s = 0; s < (int)g_shapes.size(); s++) for (int a = 0; a < 10; a++) for (int l = 0; l < 4; l++) for (int k = 0; k < K; k++) {
+    for (int s = 0; s < (int)g_shapes.size(); s++) for (int a = 0; a < 16; a++) for (int l = 0; l < 4; l++) for (int k = 0; k < K; k++) {
+        if (a >= 10 && !th && (l != 1 || k > 1)) continue;   /* quick: the almost axis-aligned axes with the mid-band edge length, two seeds */
         if (!R.args.mine(unit++)) continue; if (R.out_of_time(0.9)) { R.cap("deadline"); goto pop; }
         Case c{s, a, l, k}; cases++; progress("mode=single\ncase=" + case_text(c) + "\n");
         ForkOut fo = run_forked([&](char* buf, size_t cap) { std::string r = divide_once(c); snprintf(buf, cap, "%s", r.c_str()); }, 60);
